@@ -1,9 +1,30 @@
-import ShpanVerif.Util.Parse
-/- Driver handler for C18 (stub: replaced when the property's model lands). -/
+import ShpanVerif.Drive.PipeCommon
+/-
+Driver handler for C18: a reusable stream re-materialises identically whatever happened before.
+Spec predicate: every fault-free materialisation of the history delivers the list-level meaning of the
+pipeline (its first n elements under take:n), independent of the earlier materialisations.
+-/
 namespace ShpanVerif.Drive.C18
+open ShpanVerif.Util ShpanVerif.Model.Pipe ShpanVerif.Drive.PipeCommon ShpanVerif
 
-/-- returns (model output, spec verdict on the observation, reason) -/
-def handle (_c _obs : String) : String × Bool × String :=
-  ("unimplemented", false, "no model yet")
+def check (l : List V) : List Run → List ObsRun → Nat → Bool × String
+  | r :: rs, o :: os, i =>
+    match r.fault with
+    | some _ => check l rs os (i+1)
+    | none =>
+      let want := match r.take with | none => l | some n => if n ≤ 0 then [] else l.take n.toNat
+      if o.ok && o.delivered == fmtVs want then check l rs os (i+1)
+      else (false, s!"materialisation {i}: want ok {fmtVs want}")
+  | _, _, _ => (true, "")
+
+def handle (c obs : String) : String × Bool × String :=
+  match parseCase c with
+  | none => ("bad-case", false, "unparsable case")
+  | some (p, rs) =>
+    let model := modelText p rs
+    match parseObs obs, Spec.eval p with
+    | some os, some l => let (ok, why) := check l rs os 0; (model, ok, why)
+    | some _, none => (model, true, "")
+    | none, _ => (model, false, "unparsable observation")
 
 end ShpanVerif.Drive.C18
